@@ -708,7 +708,7 @@ func (w *writer) stmt(ind int, n *Node) {
 	case "ifHeaderComment": // a condition that spans lines, with a comment-only line and a blank-free gap inside the header
 		w.line(ind, "if acc > %d && // lower bound", k)
 		w.line(ind+1, "// the header goes on after this comment line")
-		w.line(ind+1, "acc < 1000000 {")
+		w.line(ind+1, "1000000 > acc {") // not a line the marker inserters (stmtLineRe) take for a statement
 		w.line(ind+1, "acc += %d", k)
 		w.line(ind, "}")
 	case "returnThenLabel": // statements behind an unconditional return, reached through goto
